@@ -73,8 +73,10 @@ Theorem C11_flush : forall w : world V, In (ORes true) (snd (step w EEnd)) ->
 Proof. exact (@poll_flush V). Qed.
 
 (* ... so that along EVERY history the cache holds, for every name, the version and bytes the
-   store yields (c = cache contents before the run, agreeing with the store). *)
-Theorem C11_cache_exact : forall evs (w : world V) c, Inv (wst w) -> (forall n, doc_vv c n = vv (wst w) n) ->
+   store yields (c = cache contents before the run, agreeing with the store) - as long as no
+   Cache.Write fails (`EEndF`, below). *)
+Theorem C11_cache_exact : forall evs (w : world V) c, (forall e, In e evs -> e <> EEndF) ->
+  Inv (wst w) -> (forall n, doc_vv c n = vv (wst w) n) ->
   forall n, doc_vv (cache_after c (concat (snd (run w evs)))) n = vv (wst (fst (run w evs))) n.
 Proof. exact (@cache_tracks V). Qed.
 
@@ -89,6 +91,26 @@ Proof. exact (@writes_are_state_docs V). Qed.
 Theorem C11_writes_in_history : forall (w : world V) evs1 e d, In (OFlush d) (snd (step (run_w w evs1) e)) ->
   d = doc (wst (run_w w (evs1 ++ [e]))).
 Proof. exact (@writes_in_history V). Qed.
+
+(* A FAILING Cache.Write.  The outcome of the write of applyUpdates is an input (`EEndF` = the
+   end of a poll whose write, if one is attempted, fails).  It does not influence the store: the
+   world after EEndF is the world after EEnd, so every statement above about the store after a poll
+   holds for it.  What a non-nil Refresh result then means: either no write was attempted and the
+   outputs are those of EEnd (an error = the poll failed, nothing applied, C11_all_or_nothing), or
+   the poll SUCCEEDED and installed everything, its write - the document of that new state - failed
+   (nothing reaches the cache), and every caller still waiting gets an error (store.go:299-301
+   returns applyUpdates' error although the values were installed). *)
+Theorem C11_write_failure : forall w : world V,
+  fst (step w EEndF) = fst (step w EEnd) /\
+  ((snd (step w EEndF) = snd (step w EEnd) /\ forall d, ~ In (OFlush d) (snd (step w EEnd)))
+   \/ (snd (step w EEndF) = map (@failw V) (snd (step w EEnd)) /\
+       exists d, In (OFlush d) (snd (step w EEnd)) /\ d = doc (wst (fst (step w EEnd))) /\
+                 forall b, In (ORes b) (snd (step w EEnd)) -> b = true)).
+Proof. exact (@write_failure_meaning V). Qed.
+
+Theorem C11_failed_write_doc : forall (w : world V) d,
+  In (OFlushF d) (snd (step w EEndF)) -> d = doc (wst (fst (step w EEndF))).
+Proof. exact (@failed_write_doc V). Qed.
 
 (* FAILURE.  If any caller of a poll got an error, the store is exactly what it was and nothing
    was written: every secret still yields the (really served) value it yielded before. *)
@@ -212,6 +234,8 @@ Proof. exact cadence2_sound. Qed.
 
 Print Assumptions C11_fresh.
 Print Assumptions C11_writes_are_state_docs.
+Print Assumptions C11_write_failure.
+Print Assumptions C11_failed_write_doc.
 Print Assumptions C11_writes_in_history.
 Print Assumptions C11_cadence_regular.
 Print Assumptions C11_cadence_slow_monitor.
@@ -279,3 +303,9 @@ Proof. reflexivity. Qed.
 (* a ticker re-armed after each poll: the gap is period + duration *)
 Example ex_cad2_rearmed : cadence2_ok 3600 0 [(3400, 4600); (8000, 8030)]%Z = false. Proof. reflexivity. Qed.
 Example ex_starts : starts 0 3400 [1200; 30; 4000; 100]%Z = [3400; 6800; 10200; 14200; 17000]%Z. Proof. reflexivity. Qed.
+
+(* the write of a successful poll fails: b IS installed, both callers get an error, nothing reaches the cache *)
+Example ex_write_fails : snd (step ex_wk EEndF) =
+    [OFlushF [(ex_a, Some (1, 10, 946684800%Z)); (ex_b, Some (2, 21, 946684800%Z))]; ORes false; ORes false]
+  /\ vv (wst (fst (step ex_wk EEndF))) ex_b = Some (2, 21).
+Proof. vm_compute. split; reflexivity. Qed.
